@@ -390,7 +390,7 @@ func (c *Ctx) c09Keywords() {
 // c09Writes: who may write shared state while parsing / building.
 func (c *Ctx) c09Writes() {
 	r := c.R
-	r.Rule("C09-5", "state written by module code outside fresh literals: package-level variables only in logger.SetupLogger / initialisers; fields of parser.Parser, builder.FunctionBuilder, builder.assignmentBuilder, option.Options (through a pointer) and the option matchers only at the confirmed sites")
+	r.Rule("C09-5", "state written by module code outside fresh literals: package-level variables only in logger.SetupLogger / initialisers; fields of parser.Parser, builder.FunctionBuilder, builder.assignmentBuilder, option.Options (through a pointer) and the option matchers only at the confirmed sites; no map held in a field of a module object or in a package-level variable is updated (caches shared across methods)")
 	allowed := map[string]string{
 		"parser.Parser.intfEntries@(*parser.Parser).Parse":                     "entry list kept for GenerateBaseCode, written once",
 		"builder.assignmentBuilder.copiers@(*builder.assignmentBuilder).build": "per-function builder, fresh for each method",
@@ -415,6 +415,17 @@ func (c *Ctx) c09Writes() {
 	for _, fn := range c.P.Funcs() {
 		for _, b := range fn.Blocks {
 			for _, in := range b.Instrs {
+				if mu, isMU := in.(*ssa.MapUpdate); isMU {
+					// a map that lives in a field of a module object or in a package-level variable is state that outlives
+					// one method (a memo / cache): entries written for one method are seen by the next
+					mt := c.O.Of(mu.Map)
+					if (mt.Kind == "field" || mt.Kind == "global") && !strings.HasPrefix(mt.Name, "ast.") && !strings.HasPrefix(mt.Name, "types.") && !strings.HasPrefix(mt.Name, "packages.") {
+						n++
+						_, okA := allowed[mt.Name+"@"+FnKey(fn)]
+						r.Check("C09-5", FnKey(fn)+":map:"+mt.Name, c.InstrPos(mu), okA, "map "+mt.Name+" held by a shared object is updated in "+FnKey(fn)+": a cache shared across methods (its key would have to contain every option the cached answer depends on); not in the table of confirmed writers")
+					}
+					continue
+				}
 				st, ok := in.(*ssa.Store)
 				if !ok {
 					continue
